@@ -1047,8 +1047,14 @@ impl<R: Read> RdbReader<R> {
     /// Read string
     fn read_string(&mut self) -> Result<Vec<u8>> {
         let len = self.read_length()?;
-        let mut buf = vec![0u8; len];
-        self.read_exact(&mut buf)?;
+        // The declared length comes from the file and may be corrupt (up to 4 GiB):
+        // never allocate it up front, let the buffer grow with the bytes actually read.
+        let mut buf = Vec::with_capacity(len.min(64 * 1024));
+        let got = (&mut self.reader).take(len as u64).read_to_end(&mut buf)
+            .map_err(|e| FerrousError::Io(e.to_string()))?;
+        if got != len {
+            return Err(FerrousError::Io("failed to fill whole buffer".to_string()));
+        }
         Ok(buf)
     }
     
